@@ -63,6 +63,8 @@ type (
 	TablePtr struct {
 		V     *term.T
 		Label string
+		C     *term.T // index of the table entry
+		Key   string  // field and concrete inner index ("" when the inner index is symbolic)
 	}
 	// TableRef stands for &mulTable[c] / &mulTable64[c] and their fields.
 	TableRef struct {
@@ -322,9 +324,9 @@ func strLen(v Value) int {
 	panic(unsupported(fmt.Sprintf("len of string value %T", v)))
 }
 
-func cint(n int) *term.T    { return term.Const(64, uint64(n)) }
-func cbool(b bool) *term.T  { return term.Bool(b) }
-func cbyte(b byte) *term.T  { return term.Const(8, uint64(b)) }
+func cint(n int) *term.T   { return term.Const(64, uint64(n)) }
+func cbool(b bool) *term.T { return term.Bool(b) }
+func cbyte(b byte) *term.T { return term.Const(8, uint64(b)) }
 func asT(v Value) *term.T {
 	t, ok := v.(*term.T)
 	if !ok {
